@@ -56,6 +56,7 @@ def cases(tier, seed):
                     "workers": int(rng.choice([1, 2, 3, 4, 8, 16])), "p": float(rng.choice([0.02, 0.1, 0.3])),
                     "N": int(rng.integers(8, 25)), "S": S_,
                     "chunk": int(rng.choice([0, 0, 7, 16, 40])), "reps": 2 if tier == "quick" else 3,
+                    "tilt": bool(rng.random() < 0.6),
                     "iseed": int(rng.integers(0, 2**31)), "cost": 10.0})
     for i in range(ns):
         out.append({"kind": "shape", "model": ("ZNCC", "NCC", "PCC", "FSC")[int(rng.integers(0, 4))],
@@ -92,9 +93,10 @@ def _world(rng, p):
     return loader, tomo, tmpl, blobs
 
 
-def _run_op(op, loader, tmpl, tmpl2, Model, shared_model=None):
+def _run_op(op, loader, tmpl, tmpl2, Model, tilt=False):
     """Returns a list of numpy arrays (per-molecule outputs first)."""
     rots = Rotation.from_rotvec([[0, 0, 0], [0.3, 0, 0], [0, 0, -0.3]])
+    tk = {"tilt": (-60.0, 50.0)} if tilt else {}
     if op == "asnumpy":
         return [np.asarray(loader.asnumpy())]
     if op == "average":
@@ -103,10 +105,11 @@ def _run_op(op, loader, tmpl, tmpl2, Model, shared_model=None):
         return [np.asarray(loader.average_split(n_set=2, seed=3))]
     if op in ("align", "align-rot", "align_multi", "group_align"):
         kw = {"rotations": rots} if op == "align-rot" else {}
+        kw.update(tk)
         if op == "align_multi":
-            out = loader.align_multi_templates([tmpl, tmpl2], max_shifts=1.5, alignment_model=Model).molecules
+            out = loader.align_multi_templates([tmpl, tmpl2], max_shifts=1.5, alignment_model=Model, **tk).molecules
         elif op == "group_align":
-            grp = loader.groupby("g").align(tmpl, max_shifts=1.5, alignment_model=Model)
+            grp = loader.groupby("g").align(tmpl, max_shifts=1.5, alignment_model=Model, **tk)
             from acryo import Molecules
 
             out = Molecules.concat([ld.molecules for _, ld in grp]).sort("uid")
@@ -114,15 +117,16 @@ def _run_op(op, loader, tmpl, tmpl2, Model, shared_model=None):
             out = loader.align(tmpl, max_shifts=1.5, alignment_model=Model, **kw).molecules
         return [out.pos.astype(np.float64), out.quaternion(), out.features["score"].to_numpy().astype(np.float64)]
     if op == "score":
-        sc = loader.score([tmpl, tmpl2], alignment_model=Model)
+        sc = loader.score([tmpl, tmpl2], alignment_model=Model, **tk)
         return [np.asarray(sc[0], np.float64), np.asarray(sc[1], np.float64)]
     if op == "landscape":
-        return [np.asarray(loader.construct_landscape(tmpl, max_shifts=2.0, alignment_model=Model, upsample=2).compute())]
+        return [np.asarray(loader.construct_landscape(tmpl, max_shifts=2.0, alignment_model=Model, upsample=2,
+                                                      **tk).compute())]
     if op == "apply":
         df = loader.apply(np.mean, np.std, schema=["m", "s"])
         return [df.to_numpy().astype(np.float64)]
     if op == "classify":
-        res = loader.classify(tmpl, n_components=2, n_clusters=2, seed=0)
+        res = loader.classify(tmpl, n_components=2, n_clusters=2, seed=0, **tk)
         clf = res.classifier
         tr = np.asarray(clf.get_transform(), np.float64)
         # component signs are arbitrary
@@ -177,7 +181,8 @@ class Schedule:
             self.ex = instr.ShuffleExecutor(self.seed, nthreads=min(4, max(1, p["workers"])))
             self._ctxs.append(dask.config.set(scheduler="threads", pool=self.ex, num_workers=64))
         elif k in ("yield", "yield-cache"):
-            hot = ("get", "set", "_get_template_and_mask_input") if k == "yield-cache" else ()
+            hot = ("get", "set", "_get_template_and_mask_input", "_get_missing_wedge_mask", "create_mask") \
+                if k == "yield-cache" else ()
             self.inj = instr.YieldInjector(self.seed, p=p["p"] if k == "yield" else 0.02, always=hot)
             self._ctxs.append(dask.config.set(scheduler="threads", num_workers=max(4, p["workers"])))
             self._ctxs.append(self.inj)
@@ -268,13 +273,13 @@ def _sched_case(case):
     fp0 = _memo_fingerprint(S)
     default0 = Backend._default
     with dask.config.set(scheduler="synchronous"):
-        ref_out = _run_op(p["op"], loader, tmpl, tmpl2, Model)
+        ref_out = _run_op(p["op"], loader, tmpl, tmpl2, Model, p.get("tilt", False))
     threads_seen = set()
     for rep in range(p["reps"]):
         sch = Schedule(p, p["iseed"] + rep)
         try:
             with sch:
-                out = _run_op(p["op"], loader, tmpl, tmpl2, Model)
+                out = _run_op(p["op"], loader, tmpl, tmpl2, Model, p.get("tilt", False))
         except Exception as e:
             import traceback
 
@@ -307,7 +312,7 @@ def _sched_case(case):
         img = da.from_array(tomo, chunks=ch) if ch else tomo
         ld2 = SubtomogramLoader(img, loader.molecules, order=1, output_shape=(S, S, S))
         with dask.config.set(scheduler="threads", num_workers=4):
-            out = _run_op(p["op"], ld2, tmpl, tmpl2, Model)
+            out = _run_op(p["op"], ld2, tmpl, tmpl2, Model, p.get("tilt", False))
         _cmp(case, ref_out, out, f"{p['op']} with tomogram chunks={ch or 'numpy'}", p["op"])
     # quiescent point: memoised arrays, backend default, cache growth
     fp1 = _memo_fingerprint(S)
